@@ -112,3 +112,102 @@ Proof. exact IndexedLockstep.indexed_run_indices_agree_any_input. Qed.
 
 Print Assumptions c01_planner_output_is_valid. Print Assumptions c01_planner_and_engine_least_model.
 Print Assumptions c01_indexed_engine_least_model. Print Assumptions c01_indexed_engine_refines. Print Assumptions c01_indices_agree_after_run.
+
+(* ================= run() on ANY program value =================
+   Engine/IndexedHistory.v: what a caller can do to a program value between two calls (push rows; OVERWRITE the Vec
+   fields of relations with other rows - the index fields then still describe the old rows) and what an interrupted
+   run_timeout leaves behind (the index fields its SCC had moved out are EMPTY, the others intact: the indices of one
+   relation disagree with each other and with the rows).  Tied to the real index fields around every call of such
+   histories by gen/indexed_tie.py.  update_indices rebuilds EVERY index field from the rows, hence: *)
+From AV Require Engine.Timeout.
+From AV Require Engine.IndexedHistory.
+From AV Require Engine.IndexedHistoryProofs.
+
+(* whatever the index fields hold when run() starts, the result is that of a program value with the same rows *)
+Theorem c01_run_depends_on_rows_only : forall (I : interp) swap fuel pl c1 c2,
+  IndexedSim.pshape (IndexedEval.istored c1) = IndexedSim.pshape (IndexedEval.istored c2) -> IndexedEval.irows c1 = IndexedEval.irows c2 ->
+  IndexedEval.run_plan_idx I swap fuel pl c1 = IndexedEval.run_plan_idx I swap fuel pl c2.
+Proof. exact IndexedHistoryProofs.run_plan_idx_rows_only. Qed.
+
+(* every run() on ANY program value c (index fields arbitrary: of an earlier run, stale, partly emptied) ends in the least
+   model of the rows present when it was called; those rows stay in place, what is added is new and duplicate free; all
+   index fields are in step afterwards *)
+Theorem c01_run_on_any_program_value : forall (I : interp) swap decls pl, IndexedEval.plan_idx_ok decls pl = true ->
+  forall arities P, arities_functional arities -> no_agg P = true -> validate arities P pl = true ->
+  forall fuel c c', IndexedSim.pshape (IndexedEval.istored c) = decls ->
+  wf_facts arities (IndexedEval.irows c) = true -> NoDup (IndexedEval.irows c) ->
+  (forall f, In f (IndexedEval.irows c) -> IndexedEval.fact_idx_ok decls f = true) ->
+  IndexedEval.run_plan_idx I swap fuel pl c = Some c' ->
+  least_model I P (IndexedEval.irows c) (IndexedEval.irows c')
+  /\ (exists added, IndexedEval.irows c' = IndexedEval.irows c ++ added /\ NoDup added /\ (forall f, In f added -> ~ In f (IndexedEval.irows c)))
+  /\ IndexedRefine.indices_agree (IndexedEval.istored c').
+Proof. exact IndexedHistoryProofs.indexed_run_any_value. Qed.
+
+(* run_timeout with per-index state (an interrupted call loses exactly the index fields of the SCC that was running)
+   returns the flag and the rows of Engine/Timeout.v run_timeout *)
+Theorem c01_run_timeout_indexed_refines : forall (I : interp) swap (deadline : nat -> bool) decls pl, IndexedEval.plan_idx_ok decls pl = true ->
+  forall fuel c a, IndexedEval.irows c = rows a -> IndexedSim.pshape (IndexedEval.istored c) = decls -> NoDup (rows a) ->
+  (forall f, In f (rows a) -> IndexedEval.fact_idx_ok decls f = true) ->
+  option_map (fun r => (fst r, IndexedEval.irows (snd r))) (IndexedHistory.run_timeout_idx I swap deadline fuel pl c)
+  = option_map (fun r => (fst r, rows (snd r))) (Timeout.run_timeout I swap deadline fuel pl a).
+Proof. exact IndexedHistoryProofs.indexed_timeout_rows_eq. Qed.
+
+(* whichever deadline check fired: run() on the value the interrupted run_timeout left ends in the least model of the
+   ORIGINAL input *)
+Theorem c01_run_after_interrupted_run_timeout : forall (I : interp) swap (deadline : nat -> bool) decls pl, IndexedEval.plan_idx_ok decls pl = true ->
+  forall arities P, arities_functional arities -> no_agg P = true -> validate arities P pl = true ->
+  forall fuel fuel' F0 b c1 c2,
+  wf_facts arities F0 = true -> NoDup F0 -> (forall f, In f F0 -> IndexedEval.fact_idx_ok decls f = true) ->
+  IndexedHistory.run_timeout_idx I swap deadline fuel pl (IndexedEval.init_istate decls F0) = Some (b, c1) ->
+  IndexedEval.run_plan_idx I swap fuel' pl c1 = Some c2 ->
+  least_model I P F0 (IndexedEval.irows c2) /\ IndexedRefine.indices_agree (IndexedEval.istored c2)
+  /\ IndexedSim.pshape (IndexedEval.istored c1) = decls.
+Proof. exact IndexedHistoryProofs.indexed_timeout_then_run. Qed.
+
+(* non-vacuity on transitive closure: run; overwrite edge with as many other rows, clear path; run  and
+   run_timeout interrupted inside the recursive SCC (edge's index through column 1 and path's indices empty, edge's other
+   index fields complete); run *)
+Example c01_example_overwrite_history : exists snaps M,
+  IndexedHistory.run_history_idx std_interp std_swap 20 tc_plan
+    [IndexedHistory.HSet [0%nat] tc_input; IndexedHistory.HRun; IndexedHistory.HSet [0%nat; 1%nat] IndexedHistoryProofs.tc_input2; IndexedHistory.HRun]
+    (IndexedEval.init_istate IndexedRefine.tc_decls []) = Some snaps
+  /\ naive_fix std_interp 20 tc_prog IndexedHistoryProofs.tc_input2 = Some M
+  /\ match snaps with [_; (b, R, _)] => b = true /\ length R = 25%nat /\ forallb (fun f => mem_fact f R) M && forallb (fun f => mem_fact f M) R = true | _ => False end.
+Proof. exact IndexedHistoryProofs.tc_overwrite_history. Qed.
+
+Example c01_example_resume_history : exists snaps,
+  IndexedHistory.run_history_idx std_interp std_swap 20 tc_plan [IndexedHistory.HSet [0%nat] tc_input; IndexedHistory.HTimeout 2; IndexedHistory.HRun]
+    (IndexedEval.init_istate IndexedRefine.tc_decls []) = Some snaps
+  /\ match snaps with
+     | [(b1, R1, ix1); (b2, R2, ix2)] =>
+         b1 = false /\ length R1 = 15%nat
+         /\ map (fun e => (fst (fst e), snd (fst e), length (snd e))) ix1
+            = [(0%nat, [], 5%nat); (0%nat, [1%nat], 0%nat); (0%nat, [0%nat; 1%nat], 5%nat); (1%nat, [0%nat], 0%nat); (1%nat, [0%nat; 1%nat], 0%nat)]
+         /\ b2 = true /\ length R2 = 25%nat
+     | _ => False
+     end.
+Proof. exact IndexedHistoryProofs.tc_resume_history. Qed.
+
+(* the excluded code change - an update_indices that keeps the stored indices of a relation whose row count equals the
+   length of its full index - violates both statements (computed witnesses on the same program) *)
+Theorem c01_count_trusting_update_refuted_overwrite : exists c1 c2 M,
+  IndexedEval.run_plan_idx std_interp std_swap 20 tc_plan (IndexedEval.init_istate IndexedRefine.tc_decls tc_input) = Some c1
+  /\ IndexedHistory.run_plan_trusting IndexedHistory.trust_full_len std_interp std_swap 20 tc_plan
+       (IndexedHistory.set_rels_i [0%nat; 1%nat] IndexedHistoryProofs.tc_input2 c1) = Some c2
+  /\ naive_fix std_interp 20 tc_prog (IndexedEval.irows (IndexedHistory.set_rels_i [0%nat; 1%nat] IndexedHistoryProofs.tc_input2 c1)) = Some M
+  /\ mem_fact (1%nat, [11; 12]%Z) M = true /\ mem_fact (1%nat, [11; 12]%Z) (IndexedEval.irows c2) = false
+  /\ mem_fact (1%nat, [1; 2]%Z) (IndexedEval.irows c2) = true /\ mem_fact (1%nat, [1; 2]%Z) M = false.
+Proof. exact IndexedHistoryProofs.trusting_update_refuted_overwrite. Qed.
+
+Theorem c01_count_trusting_update_refuted_resume : exists c1 c2 M,
+  IndexedHistory.run_timeout_idx std_interp std_swap (Timeout.fire_at 2) 20 tc_plan (IndexedEval.init_istate IndexedRefine.tc_decls tc_input) = Some (false, c1)
+  /\ IndexedHistory.run_plan_trusting IndexedHistory.trust_full_len std_interp std_swap 20 tc_plan c1 = Some c2
+  /\ naive_fix std_interp 20 tc_prog tc_input = Some M
+  /\ length (IndexedEval.irows c2) = 15%nat /\ length M = 25%nat
+  /\ mem_fact (1%nat, [1; 1]%Z) M = true /\ mem_fact (1%nat, [1; 1]%Z) (IndexedEval.irows c2) = false.
+Proof. exact IndexedHistoryProofs.trusting_update_refuted_resume. Qed.
+
+Print Assumptions c01_run_depends_on_rows_only. Print Assumptions c01_run_on_any_program_value.
+Print Assumptions c01_run_timeout_indexed_refines. Print Assumptions c01_run_after_interrupted_run_timeout.
+Print Assumptions c01_example_overwrite_history. Print Assumptions c01_example_resume_history.
+Print Assumptions c01_count_trusting_update_refuted_overwrite. Print Assumptions c01_count_trusting_update_refuted_resume.
